@@ -2,13 +2,20 @@
 //! public API and comparing with executable specifications written from the FUSE protocol
 //! (linux/fuse.h) and the property statements of /verif/properties.jsonl.
 //!
-//!   rx <server|readdir|init|vfs> [--filter SUBSTR] [--seed N] [--property Cxx] [--scenario SUBSTR]
+//!   rx <server|readdir|init|vfs|pt> [--filter SUBSTR] [--seed N] [--property Cxx] [--scenario SUBSTR]
 //!
 //! prints one JSON object on stdout and exits 0 (failures are data); exit 2 = harness crash.
 #![allow(dead_code, clippy::too_many_arguments)]
 mod init;
 mod json;
 mod mockfs;
+mod pt;
+mod pt_effect;
+mod pt_escape;
+mod pt_handles;
+mod pt_list;
+mod pt_refs;
+mod pt_seal;
 mod readdir;
 mod report;
 mod server;
@@ -18,7 +25,7 @@ mod wire;
 use report::Opts;
 
 fn usage() -> ! {
-    eprintln!("usage: rx <server|readdir|init|vfs> [--filter SUBSTR] [--seed N] [--property Cxx] [--scenario SUBSTR]");
+    eprintln!("usage: rx <server|readdir|init|vfs|pt> [--filter SUBSTR] [--seed N] [--property Cxx] [--scenario SUBSTR]");
     std::process::exit(2);
 }
 
@@ -50,6 +57,7 @@ fn main() {
         "readdir" => Some(readdir::run(&opts)),
         "init" => Some(init::run(&opts)),
         "vfs" => Some(vfs::run(&opts)),
+        "pt" => Some(pt::run(&opts)),
         _ => None,
     });
     match run {
